@@ -85,6 +85,7 @@ type Exec struct {
 	freshCnt   int
 	known      map[string]bool
 	mergeBase  map[ssa.Value]Value
+	selForks   map[*ssa.Select]int
 	inCallback bool
 }
 
@@ -456,6 +457,8 @@ type NativeFunc struct {
 }
 
 const maxDepth = 400
+
+const selectForkBound = 4
 
 func (ex *Exec) callSSA(caller *frame, callpos token.Pos, fn *ssa.Function, args []Value, env []Value) Value {
 	fr := &frame{ex: ex, caller: caller, fn: fn}
@@ -1360,7 +1363,20 @@ func (ex *Exec) selectStmt(fr *frame, instr *ssa.Select) Value {
 			}
 		}
 		if len(ready) > 0 {
-			chosen = ready[ex.choose(len(ready))]
+			// every ready case is a possible choice; after selectForkBound
+			// nondeterministic choices at one select site on one path the first
+			// ready case (source order) is taken: bounds unfair infinite schedules
+			if ex.selForks == nil {
+				ex.selForks = map[*ssa.Select]int{}
+			}
+			if len(ready) > 1 && ex.selForks[instr] >= selectForkBound {
+				chosen = ready[0]
+			} else {
+				if len(ready) > 1 {
+					ex.selForks[instr]++
+				}
+				chosen = ready[ex.choose(len(ready))]
+			}
 			break
 		}
 		if !instr.Blocking {
